@@ -142,10 +142,11 @@ def encode_model(m, mid, kind, gamma_names):
     g = getattr(m, "gamma", None)
     d["gamma"] = gamma_names.get(id(g), "?other")
     extra = []
-    for a in sorted(vars(m)):
+    d0 = getattr(m, "__dict__", {})
+    for a in sorted(d0):
         if a in STD_MODEL_ATTRS:
             continue
-        v = vars(m)[a]
+        v = d0[a]
         if isinstance(v, type) and a == v.__name__:
             continue  # the rating class container, e.g. self.PlackettLuceRating
         extra.append("%s=%r" % (a, v))
